@@ -114,6 +114,13 @@ MUTANTS: List[Tuple[str, str, str, str]] = [
     ("constructor-matches-properties", "property never assigned", "        self.ident = ident\n", ""),
     ("constructor-matches-properties", "extra argument", "        ident: Id_string,\n", "        ident: Id_string,\n        extra: str,\n"),
     ("optional-arguments-default-to-none", "optional without default", "        color: Optional[Color] = None,", "        color: Optional[Color],"),
+    # the rule is about ``None``, not about falsy values
+    ("optional-arguments-default-to-none", "optional defaults to 0", "        color: Optional[Color] = None,", "        color: Optional[Color] = 0,"),
+    ("optional-arguments-default-to-none", "optional defaults to the empty string", "        color: Optional[Color] = None,", '        color: Optional[Color] = "",'),
+    ("optional-arguments-default-to-none", "optional defaults to False", "        color: Optional[Color] = None,", "        color: Optional[Color] = False,"),
+    ("optional-arguments-default-to-none", "optional defaults to 0.0", "        color: Optional[Color] = None,", "        color: Optional[Color] = 0.0,"),
+    ("optional-arguments-default-to-none", "optional defaults to 1", "        color: Optional[Color] = None,", "        color: Optional[Color] = 1,"),
+    ("optional-arguments-default-to-none", "optional defaults to a text", "        color: Optional[Color] = None,", '        color: Optional[Color] = "abc",'),
     ("supported-type-shapes", "nested optional", "    color: Optional[Color]\n", "    color: Optional[Optional[Color]]\n"),
     ("supported-type-shapes", "list of optionals", "    tags: Optional[List[str]]\n", "    tags: Optional[List[Optional[str]]]\n"),
     ("supported-type-shapes", "unknown type", "    ident: Id_string\n", "    ident: Unknown_type\n"),
